@@ -184,8 +184,17 @@ impl Prop for C15 {
             let vp = dir.file(&name(&format!("vertices{}", tag), gz_v));
             write_text(&ep, &edge_text, gz_e).map_err(|e| e.to_string())?;
             write_text(&vp, &vertex_text, gz_v).map_err(|e| e.to_string())?;
-            let (ne, nv) = if c.explicit_counts { (Some(m), Some(n)) } else { (None, None) };
-            Graph::from_files(&ep, &vp, ne, nv, Some(false)).map_err(|e| e.to_string())
+            // through the application's graph builder ([graph] section as JSON); counts are
+            // explicit (true values) or scanned
+            let mut cfg = serde_json::Map::new();
+            cfg.insert("edge_list_input_file".into(), json!(ep.to_string_lossy().to_string()));
+            cfg.insert("vertex_list_input_file".into(), json!(vp.to_string_lossy().to_string()));
+            cfg.insert("verbose".into(), json!(false));
+            if c.explicit_counts {
+                cfg.insert("n_edges".into(), json!(m));
+                cfg.insert("n_vertices".into(), json!(n));
+            }
+            routee_compass::app::compass::config::graph_builder::DefaultGraphBuilder::build(&serde_json::Value::Object(cfg)).map_err(|e| e.to_string())
         };
         let max_deg = (0..n).map(|v| g.out[v].len().max(g.inc[v].len())).max().unwrap_or(0);
         let odd_file = c.gzip.0 || c.gzip.1 || !c.edge_extra.is_empty() || !c.vertex_extra.is_empty()
